@@ -418,6 +418,8 @@ func toIface(v *val) interface{} {
 	return m
 }
 
+type namedMap map[string]interface{}
+
 func classValues(n int) {
 	f := &file{name: "JV", typ: "jcase", check: "j_mismatches"}
 	for i := 0; i < n; i++ {
@@ -440,6 +442,33 @@ func classValues(n int) {
 					// (b) fixed point
 					if o2, ok2 := canon(o); !ok2 || string(o2) != string(o) {
 						violation("fixed_point", "canonical output is not a fixed point", map[string]interface{}{"input": string(in), "output": string(o), "second": string(o2)})
+					}
+					// (d) the Go-value entry points: the same value handed over as map / slice, as a struct and as
+					// json.RawMessage must give the bytes the []byte entry point gives
+					if val := toIface(v); true {
+						for name, gv := range map[string]interface{}{"generic": val, "struct": struct {
+							V interface{} `json:"v"`
+						}{val}, "raw-message": json.RawMessage(in), "named-map": namedMap{"v": val}} {
+							want := o
+							if name == "struct" || name == "named-map" {
+								want, _ = canon([]byte(`{"v":` + string(in) + `}`))
+							}
+							var got []byte
+							var gerr error
+							func() {
+								defer func() {
+									if r := recover(); r != nil {
+										gerr = fmt.Errorf("panic: %v", r)
+									}
+								}()
+								got, gerr = canonicalizer.MarshalCanonical(gv)
+							}()
+							count("go_value_entry_point", name)
+							if gerr != nil || string(got) != string(want) {
+								violation("go_value_entry_points_agree", "MarshalCanonical("+name+") differs from MarshalCanonical([]byte)",
+									map[string]interface{}{"input": string(in), "entry": name, "bytes_result": string(want), "value_result": string(got), "error": fmt.Sprint(gerr)})
+							}
+						}
 					}
 					// (c) same value
 					var back interface{}
